@@ -31,7 +31,7 @@ pub static DEF: CheckDef = CheckDef {
 const GRID: u64 = 120 * 120;
 
 fn families(t: Tier) -> Vec<(&'static str, u64)> {
-    vec![("grid", GRID), ("rand", t.n(4000, 400_000))]
+    vec![("grid", GRID), ("rand", t.n(4000, 400_000)), ("large", t.n(1500, 40_000))]
 }
 fn floors(t: Tier) -> Vec<(&'static str, u64)> {
     vec![("evaluations", t.n(18_000, 400_000)), ("admissible_checked", 30_000), ("refusals_observed", 5_000)]
@@ -88,6 +88,15 @@ pub fn run_case(ctx: &mut Ctx, fam: &str, k: u64, r: &mut Rng) {
         db = shapes[(k % 120) as usize].clone();
         va = distinct_vals(numel(&da), 2);
         vb = distinct_vals(numel(&db), 101);
+    } else if fam == "large" {
+        // one long dimension (9..40) somewhere, so that vectorised / blocked inner loops meet their tails
+        let mut full = rand_shape(r, 3, 3);
+        let i = r.below(full.len());
+        full[i] = r.range(9, 40);
+        da = if r.chance(1, 2) { full.clone() } else { partner(r, &full) };
+        db = if r.chance(1, 2) { full.clone() } else { partner(r, &full) };
+        va = rand_ints(r, numel(&da), -9, 9);
+        vb = rand_ints(r, numel(&db), 1, 9);
     } else {
         if r.chance(1, 2) {
             let full = rand_shape(r, 5, 6);
